@@ -165,6 +165,9 @@ func genC01Stage(rng *hx.Rng, tier string, w *hx.Writer) {
 		sub := rng.Bytes(20)
 		c0 := append(rng.Bytes(1+rng.Intn(40)), sub...)
 		c1 := append(rng.Bytes(1+rng.Intn(40)), sub...)
+		if it%9 == 4 {
+			c0 = rng.Bytes(rng.Intn(20)) // a content shorter than an address: reported and skipped, never a report
+		}
 		contents := [][]byte{c0, c1}
 		share := func(i int, c []byte, coeffs []*big.Int) []byte {
 			d := new(big.Int).Mod(new(big.Int).Mul(refEval(coeffs, i, BnQ), keccakModQ(c)), BnQ)
@@ -183,7 +186,11 @@ func genC01Stage(rng *hx.Rng, tier string, w *hx.Writer) {
 		for j := 0; j < nj; j++ {
 			var m stageMsg
 			i := rng.Intn(n)
-			switch rng.Intn(10) {
+			switch rng.Intn(12) {
+			case 10:
+				m = stageMsg{content: c1, sig: share(i, c0, s.coeffs)} // a valid share of THIS content labelled with another
+			case 11:
+				m = stageMsg{content: c0, sig: []byte{byte(i)}} // too short to hold coordinates
 			case 0:
 				m = stageMsg{nilMsg: true}
 			case 1:
